@@ -8,8 +8,8 @@
      Recipe(g)                  the graph the generator asked for
      Begin                      (a Begin while a case is open: the previous one crashed or hung)
      Datum(g)                   node table of x measured by the canonicaliser: must be Iso to the recipe
-     Write(w, ok, t, tok)       text t (code points) produced by writer w, with its tokenisation:
-                                LexOK(tok, t) and the abstract reader must yield x again
+     Write(w, ok, t, tok, nt)   text t (code points) produced by writer w, with its tokenisation (nt = 0):
+                                LexOKo(tok, t) and the abstract reader must yield x again
      Read(w, r, ok, g, rest)    what reader r made of t: Iso to x for write-shared, Equal to x otherwise;
                                 the whole text is consumed; both readers agree on the same text
      End
@@ -33,9 +33,11 @@ VARIABLES l,      \* next event
           x,      \* measured datum
           wr,     \* writer of the current text ("text" for a given text)
           y1,     \* <<reader, ok, g>> of the first read of the current text, or <<>>
+          pt,     \* <<text, lexically ok, result of the abstract reader>> of the last written text of this case
+                  \* (different writers mostly produce the same text: it is parsed once)
           tj,     \* what is required of the readers on the current given text: <<"agree" | "error" | "total", what is left open>>
           cnt     \* [cases, writes, reads, textreads, rejects]
-vars == <<l, ph, cid, rec, x, wr, y1, tj, cnt>>
+vars == <<l, ph, cid, rec, x, wr, y1, pt, tj, cnt>>
 Ev == TraceLog[l]
 IsEvent(e) == l <= Len(TraceLog) /\ Ev.e = e /\ l' = l + 1
 Reject(id, why, w, r) == PrintT(<<"C08REJECT", id, why, w, r>>)
@@ -46,10 +48,10 @@ Bump(f, bad) == [cnt EXCEPT ![f] = @ + 1, !.rejects = @ + (IF bad THEN 1 ELSE 0)
 
 TRecipe == /\ IsEvent("Recipe")
            /\ rec' = Ev.g
-           /\ UNCHANGED <<ph, cid, x, wr, y1, tj, cnt>>
+           /\ UNCHANGED <<ph, cid, x, wr, y1, pt, tj, cnt>>
 TBegin == /\ IsEvent("Begin")
           /\ IF ph = "idle" THEN TRUE ELSE Reject(cid, "no-end", wr, "")
-          /\ ph' = "open" /\ cid' = Ev.id /\ x' = NoG /\ wr' = "" /\ y1' = <<>> /\ tj' = <<"total", "">>
+          /\ ph' = "open" /\ cid' = Ev.id /\ x' = NoG /\ wr' = "" /\ y1' = <<>> /\ tj' = <<"total", "">> /\ pt' = <<>>
           /\ cnt' = Bump("cases", ph # "idle")
           /\ UNCHANGED rec
 TDatum == /\ IsEvent("Datum")
@@ -60,20 +62,24 @@ TDatum == /\ IsEvent("Datum")
              IN /\ (IF why = "" THEN TRUE ELSE Reject(Ev.id, why, "", ""))
                 /\ cnt' = [cnt EXCEPT !.rejects = @ + (IF why = "" THEN 0 ELSE 1)]
           /\ x' = Ev.g
-          /\ UNCHANGED <<ph, cid, rec, wr, y1, tj>>
-TextWhy(w, t, tok) ==
-  IF ~LexOK(tok, t) THEN "text-lex"
-  ELSE LET rd == Read(tok) IN
+          /\ UNCHANGED <<ph, cid, rec, wr, y1, pt, tj>>
+Parsed(t, tok) == IF pt # <<>> /\ pt[1] = t THEN pt ELSE <<t, LexOKo(tok, t), Read(tok)>>
+TextWhy(w, pp) ==
+  IF ~pp[2] THEN "text-lex"
+  ELSE LET rd == pp[3] IN
        IF ~rd.ok THEN "text-syntax"
        ELSE IF w = "shared" THEN (IF MatchIso(x, rd.g) THEN "" ELSE "text-not-iso")
        ELSE (IF MatchEqual(x, rd.g) THEN "" ELSE "text-not-equal")
 TWrite == /\ IsEvent("Write")
-          /\ LET why == IF ~(ph = "open" /\ Ev.id = cid /\ x # NoG) THEN "event-order"
+          /\ LET pp == IF Ev.ok = 1 /\ ph = "open" /\ x # NoG /\ Ev.nt = 0 THEN Parsed(Ev.t, Ev.tok) ELSE <<>>
+                 why == IF ~(ph = "open" /\ Ev.id = cid /\ x # NoG) THEN "event-order"
                         ELSE IF Ev.ok # 1 THEN "write-error"
                         ELSE IF Ev.w \in {"native", "simple"} /\ Cyclic(x) THEN "plain-write-on-cycle"
-                        ELSE TextWhy(Ev.w, Ev.t, Ev.tok)
+                        ELSE IF Ev.nt = 1 THEN ""            \* no tokens supplied (sampled out for the big sweep vectors)
+                        ELSE TextWhy(Ev.w, pp)
              IN /\ (IF why = "" THEN TRUE ELSE Reject(Ev.id, why, Ev.w, ""))
-                /\ cnt' = Bump("writes", why # "")
+                /\ cnt' = [Bump("writes", why # "") EXCEPT !.texts = @ + (IF Ev.nt = 0 THEN 1 ELSE 0)]
+                /\ pt' = pp
           /\ wr' = Ev.w /\ y1' = <<>>
           /\ UNCHANGED <<ph, cid, rec, x, tj>>
 \* the abstract reader met no error but the datum is not finished: what is open ("" = not incomplete)
@@ -89,7 +95,7 @@ IncompleteWhy(tok) ==
      ELSE ""
 Incomplete(tok) == IncompleteWhy(tok) # ""
 NoOdd(g) == \A i \in 1..Len(g.n) : g.n[i].k # "odd"
-ValidText(tok, t) == LexOK(tok, t) /\ Read(tok).ok /\ NoOdd(Read(tok).g)
+ValidText(tok, t) == LexOKo(tok, t) /\ Read(tok).ok /\ NoOdd(Read(tok).g)
 TText == /\ IsEvent("Text")
          /\ (IF ph = "open" /\ Ev.id = cid THEN TRUE ELSE Reject(Ev.id, "event-order", "text", ""))
          /\ wr' = "text" /\ y1' = <<>>
@@ -98,7 +104,7 @@ TText == /\ IsEvent("Text")
                                                   ELSE IF ValidText(Ev.tok, Ev.t) THEN <<"agree", "">> ELSE <<"total", "">>)
                   ELSE <<"total", "">>
          /\ cnt' = [cnt EXCEPT !.rejects = @ + (IF ph = "open" /\ Ev.id = cid THEN 0 ELSE 1)]
-         /\ UNCHANGED <<ph, cid, rec, x>>
+         /\ UNCHANGED <<ph, cid, rec, x, pt>>
 Agree(a, ok, g) ==        \* a = <<reader, ok, g>> of the other reader on the same text
   IF (a[2] = 1) # (ok = 1) THEN "readers-differ-outcome"
   ELSE IF ok = 1 /\ ~Same(a[3], g) THEN "readers-differ-datum" ELSE ""
@@ -127,18 +133,18 @@ TRead == /\ IsEvent("Read")
                /\ cnt' = Bump(IF wr = "text" THEN "textreads" ELSE "reads", why # "")
          /\ y1' = <<Ev.r, Ev.ok, Ev.g>>
          /\ (IF wr = "text" THEN PrintT(<<"C08TEXT", Ev.id, tj[1], Ev.r, Cls(Ev.ok, Ev.g)>>) ELSE TRUE)
-         /\ UNCHANGED <<ph, cid, rec, x, wr, tj>>
+         /\ UNCHANGED <<ph, cid, rec, x, wr, pt, tj>>
 TEnd == /\ IsEvent("End")
         /\ (IF ph = "open" /\ Ev.id = cid THEN TRUE ELSE Reject(Ev.id, "event-order", "", ""))
         /\ cnt' = [cnt EXCEPT !.rejects = @ + (IF ph = "open" /\ Ev.id = cid THEN 0 ELSE 1)]
-        /\ ph' = "idle" /\ UNCHANGED <<cid, rec, x, wr, y1, tj>>
-TInfo == /\ IsEvent("Info") /\ UNCHANGED <<ph, cid, rec, x, wr, y1, tj, cnt>>
+        /\ ph' = "idle" /\ UNCHANGED <<cid, rec, x, wr, y1, pt, tj>>
+TInfo == /\ IsEvent("Info") /\ UNCHANGED <<ph, cid, rec, x, wr, y1, pt, tj, cnt>>
 TFin == /\ IsEvent("Fin")
         /\ IF ph = "idle" THEN TRUE ELSE Reject(cid, "no-end", wr, "")
-        /\ PrintT(<<"C08SUMMARY", cnt.cases, cnt.writes, cnt.reads, cnt.textreads, cnt.rejects + (IF ph = "idle" THEN 0 ELSE 1)>>)
-        /\ ph' = "idle" /\ UNCHANGED <<cid, rec, x, wr, y1, tj, cnt>>
-TraceInit == /\ l = 1 /\ ph = "idle" /\ cid = 0 /\ rec = NoG /\ x = NoG /\ wr = "" /\ y1 = <<>> /\ tj = <<"total", "">>
-             /\ cnt = [cases |-> 0, writes |-> 0, reads |-> 0, textreads |-> 0, rejects |-> 0]
+        /\ PrintT(<<"C08SUMMARY", cnt.cases, cnt.writes, cnt.reads, cnt.textreads, cnt.rejects + (IF ph = "idle" THEN 0 ELSE 1), cnt.texts>>)
+        /\ ph' = "idle" /\ UNCHANGED <<cid, rec, x, wr, y1, pt, tj, cnt>>
+TraceInit == /\ l = 1 /\ ph = "idle" /\ cid = 0 /\ rec = NoG /\ x = NoG /\ wr = "" /\ y1 = <<>> /\ pt = <<>> /\ tj = <<"total", "">>
+             /\ cnt = [cases |-> 0, writes |-> 0, reads |-> 0, textreads |-> 0, rejects |-> 0, texts |-> 0]
 TraceNext == TRecipe \/ TBegin \/ TDatum \/ TWrite \/ TText \/ TRead \/ TEnd \/ TInfo \/ TFin
 TraceSpec == TraceInit /\ [][TraceNext]_vars
 Accepted == LET d == TLCGet("stats").diameter IN
